@@ -341,3 +341,19 @@ impl Monitor for C16 {
         }
     }
 }
+
+/// reduced law check for interpreters (Miri): every 3rd pool value without timestamps (no time-zone database access)
+pub fn laws_small() -> (u64, u64, Vec<String>) {
+    let pool: Vec<Value> = pool_specs().iter().filter(|s| s[0] != "ts").step_by(3).filter_map(mk).collect();
+    let mut obs = Obs::default();
+    let mut vs: Vec<Violation> = Vec::new();
+    let (mut pairs, mut triples) = (0u64, 0u64);
+    for a in &pool {
+        check_reflexive(a, &mut vs);
+        for b in &pool {
+            check_pair(a, b, &mut vs, &mut obs); pairs += 1;
+            for c in &pool { check_triple(a, b, c, &mut vs, &mut obs); triples += 1; }
+        }
+    }
+    (pairs, triples, vs.into_iter().filter(|v| v.sig != "law:numeric-order|Int~Real").map(|v| format!("{} :: {}", v.sig, v.detail)).collect())
+}
